@@ -260,9 +260,13 @@ func c12Run(k, L int, perm []int, n *big.Int, kinds []int, budget time.Duration,
 		a.log = l
 	}
 	before := new(big.Int).Set(n)
-	p := acexec.NewParallel()
+	p := c12SharedExec
+	if p == nil {
+		p = acexec.NewParallel()
+	}
 	p.SetConcurrency(L)
 	p.SetLogger(log.New(c12Writer{l}, "", 0))
+	midSet := c12MidSet
 
 	go func() {
 		var rs []acexec.Result
@@ -323,6 +327,11 @@ func c12Run(k, L int, perm []int, n *big.Int, kinds []int, budget time.Duration,
 		open[pick] = true
 		nOpen++
 		out.opened = append(out.opened, pick)
+		if midSet > 0 && nOpen == 1 {
+			// the limit of the executor object is changed while the call is in flight (an algorithm
+			// has entered FindChain, so Execute has started): the call keeps the limit it began with
+			p.SetConcurrency(midSet)
+		}
 		close(mine[pick].gate)
 		for !l.finished[pick] && !stop() {
 			l.cond.Wait()
@@ -399,6 +408,13 @@ func c12Run(k, L int, perm []int, n *big.Int, kinds []int, budget time.Duration,
 	}
 	return out
 }
+
+// c12SharedExec, when set, is the one executor object used for every run (limits change between calls);
+// c12MidSet, when positive, is a limit set on the executor while a call is in flight.
+var (
+	c12SharedExec *acexec.Parallel
+	c12MidSet     int
+)
 
 var c12CaseNo int
 
@@ -582,6 +598,23 @@ func genC12(g *Gen) {
 			}
 		}
 	}
+	// one executor object reused across calls, the limit raised and lowered in between: every call obeys
+	// the limit set before it
+	c12SharedExec = acexec.NewParallel()
+	for _, L := range []int{4, 1, 3, 1, 2, 5, 2, 1, 6, 1} {
+		k := 4
+		c12Case(g, k, L, c12RandPerm(g, k), c12Target(g), make([]int, k))
+		g.Count("shared-executor")
+	}
+	c12SharedExec = nil
+	// the limit changed while a call is in flight
+	for _, pr := range [][2]int{{3, 1}, {1, 3}, {2, 4}, {4, 2}, {1, 1}, {2, 5}} {
+		c12MidSet = pr[1]
+		k := 3
+		c12Case(g, k, pr[0], c12RandPerm(g, k), c12Target(g), make([]int, k))
+		g.Count("limit-changed-mid-call")
+	}
+	c12MidSet = 0
 	// colliding names, limits on both sides of k and well above it (a limit larger than the list is the
 	// CLI default on machines with many cores)
 	for k := 1; k <= g.pick(6, 9); k++ {
